@@ -43,21 +43,27 @@ func (x *c20SX) indexLoop(s *ast.ForStmt, st *c20St) ([]*c20St, bool) {
 	if !ok || i == nil || cond.Op != token.LSS || objOf(x.info, cond.X) != i {
 		return nil, false
 	}
-	X := lenCallArg(x.info, cond.Y)
 	post, ok := s.Post.(*ast.IncDecStmt)
-	if !ok || X == nil || post.Tok != token.INC || objOf(x.info, post.X) != i {
+	if !ok || post.Tok != token.INC || objOf(x.info, post.X) != i {
 		return nil, false
 	}
 	if countAssignsTo(x.info, s.Body, i, s.Body.Pos(), s.Body.End()) > 0 {
 		return nil, false
 	}
 	var out []*c20St
-	for _, r := range x.ev(X, st) {
-		if r.st.ctl != c20cRun {
+	// the bound is the length of an input slice: `i < len(ids)`, or `i < n` where n holds such a length
+	// (a local, or the parameter of an inlined helper that was passed len(ids))
+	for _, r := range x.ev(cond.Y, st) {
+		switch {
+		case r.st.ctl != c20cRun:
 			out = append(out, r.st)
-			continue
+		case r.v.k == c20kLen && r.v.base.k == c20kIn:
+			out = append(out, x.loopOver(s, s.Body, nil, nil, i, *r.v.base, r.st)...)
+		case r.v.k == c20kLen && r.v.base.k == c20kNil, r.v.k == c20kInt && r.v.h == nil && r.v.n == 0:
+			out = append(out, r.st) // no iteration
+		default:
+			out = append(out, r.st.abort(s, "`for` loop bounded by %s (only the length of an option-slice or id-slice parameter is understood)", r.v.String()))
 		}
-		out = append(out, x.loopOver(s, s.Body, nil, nil, i, r.v, r.st)...)
 	}
 	return out, true
 }
@@ -104,6 +110,7 @@ func (x *c20SX) loopOver(s ast.Node, body *ast.BlockStmt, key, value ast.Expr, i
 	kind := x.optKind(elem)
 	isID := kind == ""
 	pre := st.clone()
+	since := x.tick
 	// loop variables
 	loopIdx := c20V{k: c20kObj, tag: "loopidx", id: id, h: v.h}
 	if key != nil {
@@ -113,6 +120,7 @@ func (x *c20SX) loopOver(s ast.Node, body *ast.BlockStmt, key, value ast.Expr, i
 		x.assign(value, ev, st)
 	}
 	if idx != nil {
+		x.born(idx)
 		st.env[idx] = loopIdx
 	}
 	if st.ctl != c20cRun {
@@ -153,21 +161,20 @@ func (x *c20SX) loopOver(s ast.Node, body *ast.BlockStmt, key, value ast.Expr, i
 	}
 	var post *c20St
 	if isID {
-		post = x.sumIDLoop(s, id, v, pre, ends)
+		post = x.sumIDLoop(s, since, id, v, pre, ends)
 	} else {
-		post = x.sumOptLoop(s, id, kind, v, pre, ends)
+		post = x.sumOptLoop(s, since, id, kind, v, pre, ends)
 	}
 	return append(out, post)
 }
 
 // changed lists the variables of pre whose value differs in end.
-func (x *c20SX) changed(pre, end *c20St) []types.Object {
+func (x *c20SX) changed(pre, end *c20St, since int) []types.Object {
 	var out []types.Object
-	cur := x.cx.byObj[x.stack[len(x.stack)-1]]
 	for o, old := range pre.env {
-		// parameters and locals of inlined helpers are rebound on every call: only the variables of the
-		// function that contains the loop carry state from one iteration to the next
-		if cur == nil || o.Pos() < cur.Decl.Pos() || o.Pos() >= cur.Decl.End() {
+		// a variable declared, or bound as a parameter, during the iteration (locals and parameters of helpers and
+		// closures called in the body) starts a new lifetime there: it cannot carry state to the next iteration
+		if x.birth[o] > since {
 			continue
 		}
 		if nv, ok := end.env[o]; ok && !c20Same(old, nv) {
@@ -177,10 +184,10 @@ func (x *c20SX) changed(pre, end *c20St) []types.Object {
 	return out
 }
 
-func (x *c20SX) sumOptLoop(s ast.Node, id int, kind string, v c20V, pre *c20St, ends []*c20St) *c20St {
+func (x *c20SX) sumOptLoop(s ast.Node, since, id int, kind string, v c20V, pre *c20St, ends []*c20St) *c20St {
 	var list types.Object
 	for _, e := range ends {
-		for _, o := range x.changed(pre, e) {
+		for _, o := range x.changed(pre, e, since) {
 			old, nv := pre.env[o], e.env[o]
 			switch {
 			case nv.k == c20kList && old.k == c20kList && old.star == nil && len(nv.elems) == len(old.elems)+1 && nv.in == old.in &&
@@ -206,7 +213,7 @@ func (x *c20SX) sumOptLoop(s ast.Node, id int, kind string, v c20V, pre *c20St, 
 	return pre
 }
 
-func (x *c20SX) sumIDLoop(s ast.Node, id int, v c20V, pre *c20St, ends []*c20St) *c20St {
+func (x *c20SX) sumIDLoop(s ast.Node, since, id int, v c20V, pre *c20St, ends []*c20St) *c20St {
 	atom := fmt.Sprintf("notfirst:#%d", id)
 	var buf types.Object
 	var first, later *c20Sym
@@ -219,7 +226,7 @@ func (x *c20SX) sumIDLoop(s ast.Node, id int, v c20V, pre *c20St, ends []*c20St)
 		return (*dst).render(nil) == app.render(nil)
 	}
 	for _, e := range ends {
-		for _, o := range x.changed(pre, e) {
+		for _, o := range x.changed(pre, e, since) {
 			old, nv := pre.env[o], e.env[o]
 			var app c20Sym
 			switch {
@@ -263,7 +270,7 @@ func (x *c20SX) sumIDLoop(s ast.Node, id int, v c20V, pre *c20St, ends []*c20St)
 		if l[1].hole.verb != f[0].hole.verb {
 			h.verb = "mixed"
 		}
-		pre.env[buf] = c20V{k: c20kBytes, sym: c20Sym{{hole: h}}, typ: old.typ}
+		pre.env[buf] = c20V{k: c20kBytes, sym: c20Sym{{hole: h}}, typ: old.typ, tag: old.tag}
 	case len(f) == 1 && isElem(f[0]) && len(l) == 1 && isElem(l[0]) && old.k == c20kList:
 		h.fn, h.verb = "ids", f[0].hole.verb
 		old.star = h
